@@ -796,6 +796,112 @@ theorem custom_sync_coarse_stamp_counterexample :
         [.change "p1" ["||a^"] 0, .sync true 0, .query "p1", .change "p1" ["||b^"] 0, .sync false 0, .query "p1"] := by
   decide
 
+/-! ## The storage: one filter and one result cache per list (wiring) -/
+
+/-- **storage_lists_independent.** The rule-list side of the filter storage as the builder wires
+it — every rule list, blocked service and safe-search filter with an engine and a result cache of
+its own: for every history of queries, refreshes and evictions addressed to arbitrary lists, every
+query of list `i` is answered with the engine installed last *for list `i`*; a refresh or an
+eviction of another list changes nothing, and no answer survives the refresh of its own list. -/
+theorem storage_lists_independent {ι S R V : Type} [DecidableEq ι] [DecidableEq S] (hash : Key → S)
+    (hok : HashOK hash) (es : ι → Key → R → V) (hes : ∀ i, ClientFree (es i))
+    (ops : List (StOp ι S R V)) (hops : StOpsClientFree ops) :
+    Store.run hash (fun i => { engine := es i, cache := Tbl.empty, enabled := true }) ops =
+      Store.spec es ops := by
+  have key : ∀ (ops : List (StOp ι S R V)) (st : Store ι S R V), (∀ i, (st i).Inv hash) →
+      (∀ i, ClientFree (st i).engine) → StOpsClientFree ops →
+      Store.run hash st ops = Store.spec (fun i => (st i).engine) ops := by
+    intro ops
+    induction ops with
+    | nil => intro _ _ _ _; rfl
+    | cons o ops ih =>
+      intro st hi hcf hops
+      obtain ⟨i, op⟩ := o
+      have hinv : ∀ j, ((st.step hash ⟨i, op⟩).1 j).Inv hash := by
+        intro j
+        simp only [Store.step]
+        split
+        · exact RL.step_inv (hi _) (hcf _) _
+        · exact hi j
+      cases op with
+      | query k r =>
+        have hse := RL.step_engine_query (hash := hash) (st i) k r
+        have heng : (fun j => ((st.step hash ⟨i, .query k r⟩).1 j).engine) = fun j => (st j).engine := by
+          funext j
+          simp only [Store.step]
+          split
+          · rename_i h; rw [h]; exact hse.1
+          · rfl
+        simp only [Store.run, Store.spec]
+        rw [ih _ hinv (by intro j; rw [congrFun heng j]; exact hcf j) (by simpa [StOpsClientFree] using hops), heng]
+        congr 1
+        simp only [Store.step]
+        exact RL.step_query_out hok (hi i) k r
+      | refresh e' =>
+        have heng : (fun j => ((st.step hash ⟨i, .refresh e'⟩).1 j).engine) =
+            fun j => if j = i then e' else (st j).engine := by
+          funext j
+          simp only [Store.step]
+          split <;> simp [RL.step]
+        simp only [Store.run, Store.spec]
+        rw [ih _ hinv (by
+          intro j; rw [congrFun heng j]; split
+          · exact hops.1
+          · exact hcf j) hops.2, heng]
+        simp [Store.step, RL.step]
+      | evict sl =>
+        have heng : (fun j => ((st.step hash ⟨i, .evict sl⟩).1 j).engine) = fun j => (st j).engine := by
+          funext j
+          simp only [Store.step]
+          split
+          · rename_i h; rw [h]; simp [RL.step]
+          · rfl
+        simp only [Store.run, Store.spec]
+        rw [ih _ hinv (by intro j; rw [congrFun heng j]; exact hcf j) (by simpa [StOpsClientFree] using hops), heng]
+        simp [Store.step, RL.step]
+  exact key ops _ (by intro i slot it hc; simp [Tbl.empty] at hc) hes hops
+
+/-- Non-vacuity: two lists, interleaved; refreshing list 1 leaves the cached answer of list 0 alone
+and replaces its own. -/
+example :
+    let e0 : Key → Nat → String := fun k _ => if k.host = "ads.example" then "blocked-by-0" else "none"
+    let e1 : Key → Nat → String := fun k _ => if k.host = "ads.example" then "blocked-by-1" else "none"
+    Store.run (ι := Nat) id (fun i => { engine := if i = 0 then e0 else e1, cache := Tbl.empty, enabled := true })
+      [⟨0, .query ⟨"ads.example", 2⟩ 1⟩, ⟨1, .query ⟨"ads.example", 2⟩ 1⟩, ⟨1, .refresh (fun _ _ => "none")⟩,
+       ⟨0, .query ⟨"ads.example", 2⟩ 2⟩, ⟨1, .query ⟨"ads.example", 2⟩ 2⟩] =
+      [some "blocked-by-0", some "blocked-by-1", none, some "blocked-by-0", some "none"] := by
+  decide
+
+/-- **storage_shared_cache_counterexample.** The wiring matters: with one result cache between two
+lists (a cache memoised by identifier, or one cache object given to several filters) the answer of
+list 0 is served to a requester of list 1, and it survives the refresh of list 1 — the storage no
+longer answers like `Store.spec`. -/
+theorem storage_shared_cache_counterexample :
+    let e0 : Key → Nat → String := fun k _ => if k.host = "ads.example" then "blocked-by-0" else "none"
+    let ops : List (StOp Nat Key Nat String) :=
+      [⟨0, .query ⟨"ads.example", 2⟩ 1⟩, ⟨1, .query ⟨"ads.example", 2⟩ 1⟩]
+    Shared.run id ⟨fun i => if i = 0 then e0 else fun _ _ => "none", Tbl.empty⟩ ops ≠
+      Store.spec (fun i => if i = 0 then e0 else fun _ _ => "none") ops := by
+  decide
+
+/-- **hashprefix_shared_storage_counterexample.** Likewise for the hash-prefix filters: two filters
+wired to *one* hash storage (as when the builder passes the same `Hashes` to two `NewFilter` calls).
+The refresh of the first filter replaces the shared hashes and clears the first filter's cache only;
+the second filter, whose own refresh is not in flight, keeps answering from its cache with a host
+that the storage no longer holds. -/
+theorem hashprefix_shared_storage_counterexample :
+    let subs : String → List String := fun h => [h]
+    let r : Req := ⟨.nxdomain, 10, true, true, .a⟩
+    -- filter 2 looks the host up and caches it
+    let s2 := HP.final true subs .host id (HP.init (S := Key))
+      [.store ["bad.example"], .clear, .begin 1 ⟨"bad.example", 2⟩ r, .mtch 1, .finish 1]
+    -- filter 1 refreshes: the shared storage is replaced, only filter 1's cache is cleared
+    let s2' : HP Key := { s2 with store := [] }
+    s2'.pending = 0 ∧
+      (s2'.step true subs .host id (.begin 2 ⟨"bad.example", 2⟩ r)).2 ≠
+        some (s2'.fresh subs .host ⟨"bad.example", 2⟩ r) := by
+  decide
+
 #print axioms transparent_rulelist
 #print axioms rulelist_no_stale_after_refresh
 #print axioms rulelist_client_rule_counterexample
@@ -826,6 +932,9 @@ theorem custom_sync_coarse_stamp_counterexample :
 #print axioms custom_full_sync_installs_backend_rules
 #print axioms custom_sync_request_time_stamp_counterexample
 #print axioms custom_sync_coarse_stamp_counterexample
+#print axioms storage_lists_independent
+#print axioms storage_shared_cache_counterexample
+#print axioms hashprefix_shared_storage_counterexample
 
 end Agd.ResultCache
 #print axioms Agd.Tie.TrC12.translation_complete
